@@ -29,6 +29,26 @@ def crc16(data: bytes) -> int:
 
 assert crc16(b"123456789") == 0x4B37, "CRC-16/MODBUS self check failed"
 
+# byte-wise table derived from the bit-wise definition above (speed only; cross-checked against it at import)
+_T = []
+for _i in range(256):
+    _c = _i
+    for _ in range(8):
+        _c = (_c >> 1) ^ 0xA001 if _c & 1 else _c >> 1
+    _T.append(_c)
+_bitwise_crc16 = crc16
+
+
+def crc16(data: bytes) -> int:  # noqa: F811
+    crc = 0xFFFF
+    for b in data:
+        crc = (crc >> 8) ^ _T[(crc ^ b) & 0xFF]
+    return crc
+
+
+for _probe in (b"", b"\x00", b"123456789", bytes(range(256)), b"\xff" * 40):
+    assert crc16(_probe) == _bitwise_crc16(_probe), "table-driven CRC disagrees with the bit-wise definition"
+
 
 def crc_bytes(data: bytes) -> bytes:
     c = crc16(data)
@@ -139,6 +159,11 @@ def parse_rtu_request(frame: bytes):
 def rtu_read_response(addr: int, payload: bytes) -> bytes:
     body = bytes((addr, FC_READ, len(payload) & 0xFF)) + payload
     return b"\xaa\x55" + body + crc_bytes(body)
+
+
+def rtu_read_response_unsealed(addr: int, payload: bytes) -> bytes:
+    """Frame with a dummy CRC for decoding-only checks (ProtocolResponse does not validate)."""
+    return b"\xaa\x55" + bytes((addr, FC_READ, len(payload) & 0xFF)) + payload + b"\x00\x00"
 
 
 def rtu_write_response(addr: int, reg: int, word: int) -> bytes:
